@@ -40,7 +40,7 @@ type c03Case struct {
 	Comp       string   `json:"comp,omitempty"`
 	Hosts      int      `json:"hosts"`
 	Reqs       []c03Req `json:"requests"`
-	RawLz4     bool     `json:"raw_lz4,omitempty"` // do not route around the known lz4-decoder finding
+	RawLz4     bool     `json:"raw_lz4,omitempty"`   // do not route around the known lz4-decoder finding
 	Pipelined  bool     `json:"pipelined,omitempty"` // all requests leave in one write; the answers are in flight together
 }
 
